@@ -621,6 +621,134 @@ def check_psk(case):
     return good(labels=labels + ["fallback" if p.both_ok else "rejected"])
 
 
+# ----------------------------------------------- delegated credentials ---
+DC_KEYS = {"rsapss": ("serverDelCredRSAPSSKey.pem",
+                      "serverDelCredRSAPSSPub.pem", (8, 9)),
+           "ed25519": ("serverDelCredEd25519Key.pem",
+                       "serverDelCredEd25519Pub.pem", (8, 7)),
+           "p256": ("serverDelCredSECP256r1Key.pem",
+                    "serverDelCredSECP256r1Pub.pem", (4, 3)),
+           "p384": ("serverDelCredSECP384r1Key.pem",
+                    "serverDelCredSECP384r1Pub.pem", (5, 3))}
+# end-entity credential -> scheme it signs the delegation with
+DC_CERTS = {"rsapss_sig": (8, 9), "ecdsa": (4, 3), "ed25519": (8, 7)}
+
+
+def make_dc(cert_name, dc_name, corrupt=None, for_cert=None):
+    from tlslite.x509 import DelegatedCredential, Credential
+    from tlslite.utils.keyfactory import parsePEMKey
+    from tlslite.utils.pem import dePem
+    from tlslite.constants import SignatureScheme
+    import os
+    from vlib import ROOT
+    kf, pf, dc_alg = DC_KEYS[dc_name]
+    kd = os.path.join(ROOT, "assets", "keys")
+    dc_key = parsePEMKey(open(os.path.join(kd, kf)).read(), private=True,
+                         implementations=["python"])
+    dc_pub = dePem(open(os.path.join(kd, pf)).read(), "PUBLIC KEY")
+    chain, key = sc.cred(cert_name)
+    bound = sc.cred(for_cert)[0] if for_cert else chain
+    sig_alg = DC_CERTS[cert_name]
+    valid = 7 * 24 * 3600
+    cred_bytes = Credential.marshal(valid, dc_alg, dc_pub)
+    cred = Credential(valid_time=valid, dc_cert_verify_algorithm=dc_alg,
+                      subject_public_key_info=dc_pub, bytes=cred_bytes)
+    ctx = DelegatedCredential.compute_certificate_dc_sig_context(
+        bound.x509List[0].bytes, cred_bytes, sig_alg)
+    scheme = SignatureScheme.toRepr(sig_alg)
+    if sig_alg in ((8, 7), (8, 8)):
+        args = (None, "intrinsic", None)
+    elif sig_alg[1] == 3:
+        args = (None, {4: "sha256", 5: "sha384", 6: "sha512"}[sig_alg[0]],
+                None)
+    else:
+        hn = SignatureScheme.getHash(scheme)
+        args = (SignatureScheme.getPadding(scheme), hn,
+                hashlib.new(hn).digest_size)
+    sig = bytearray(key.hashAndSign(ctx, *args))
+    if corrupt == "flip_delegation":
+        sig[-3] ^= 0x40
+    dc = DelegatedCredential(cred=cred, algorithm=sig_alg, signature=sig)
+    return chain, key, dc_key, dc, dc_alg
+
+
+def check_dc(case):
+    """RFC 9345: the end-entity key signs the credential (delegation), the
+    credential's key signs CertificateVerify. Either proof missing or wrong
+    must fail; nothing may be attributed."""
+    cert, dcn, corr = case["cert"], case["dc"], case["corr"]
+    labels = ["site=dc", "cert=" + cert, "dc=" + dcn, "corr=" + corr]
+    DET.reseed("C05dc", cert, dcn, corr)
+    try:
+        chain, key, dc_key, dc, dc_alg = make_dc(
+            cert, dcn, corrupt=corr,
+            for_cert="rsapss" if corr == "other_cert" and
+            cert == "rsapss_sig" else ("p384" if corr == "other_cert"
+                                       else None))
+    except Exception as e:      # noqa
+        raise HarnessError("cannot build delegated credential: %r" % (e,))
+    all_algs = [v[2] for v in DC_KEYS.values()]
+    offered = [a for a in all_algs if not (corr == "unoffered" and
+                                           a == dc_alg)]
+    st_ = dict(minVersion=(3, 4), maxVersion=(3, 4))
+    client = {"settings": sc.mk_settings(dc_sig_algs=offered, **st_)}
+    server = {"settings": sc.mk_settings(**st_), "certChain": chain,
+              "privateKey": None, "dc_key": dc_key, "del_cred": dc}
+    if corr == "cv_other_key":
+        # CertificateVerify made with the certificate's key although a
+        # credential (with another key) is presented
+        server["dc_key"] = key
+    if corr == "cv_flip":
+        state = {}
+
+        def fn(dev, idx, ct, data):
+            if ct == 22 and data[0] == 15 and not state.get("d"):
+                state["d"] = True
+                return [(ct, flip_last(data))]
+            return None
+
+        def prepare(cc, scn):
+            Deviant(scn, fn)
+    else:
+        prepare = None
+    try:
+        p = sc.connect(client, server, prepare=prepare)
+    except Exception as e:      # noqa - server-side refusal to start
+        return good(nt=False, labels=labels + ["server-api-refused"])
+    used = p.c.session is not None and getattr(
+        p.c.session, "delegated_credential", None) is not None
+    labels.append("client=" + (describe_exc(p.co.exc) if p.co.exc
+                               else p.co.state))
+    if corr == "none":
+        if not p.both_ok or not used:
+            return bad("positive-control-fails:dc:%s:%s" % (cert, dcn),
+                       "%r %r used=%r" % (p.co, p.so, used), labels=labels)
+        return good(nt=False, labels=labels)
+    if corr == "unoffered":
+        # the server must fall back to its certificate key or fail; the
+        # credential must not be used
+        if p.co.ok and used:
+            return bad("identity-attributed-without-proof:dc:unoffered",
+                       "credential with an algorithm the client did not "
+                       "offer was accepted", labels=labels)
+        return good(labels=labels)
+    if p.co.ok:
+        return bad("identity-attributed-without-proof:dc:%s:%s:%s" % (
+            cert, dcn, corr), "client completed; credential used=%r" % used,
+            labels=labels)
+    e = p.co.exc
+    if p.co.state == "exc" and not isinstance(e, (BaseTLSException,
+                                                  OSError)):
+        return bad("unrelated-exception:%s@%s" % (type(e).__name__,
+                                                  exc_site(e)), corr,
+                   labels=labels)
+    if p.co.state == "exc" and not isinstance(e, TLSLocalAlert) and \
+            p.so.ok:
+        return bad("rejected-without-alert:dc:%s" % type(e).__name__,
+                   describe_exc(e), labels=labels)
+    return good(labels=labels)
+
+
 # -------------------------------------------- identity from old tickets ---
 def check_ticket(case):
     """An identity learnt on an *earlier* connection (carried inside a
@@ -850,6 +978,11 @@ def explicit(tier, seed):
             for tickets in (False, True):
                 yield {"k": "checker", "ver": ver, "resume": True,
                        "who": who, "tickets": tickets}
+    for cert in sorted(DC_CERTS):
+        for dcn in sorted(DC_KEYS):
+            for corr in ("none", "flip_delegation", "other_cert",
+                         "cv_other_key", "cv_flip", "unoffered"):
+                yield {"k": "dc", "cert": cert, "dc": dcn, "corr": corr}
     for v1 in ("tls13", "tls12"):
         for var in ("control", "hash", "expired", "version", "other_key"):
             yield {"k": "ticket", "var": var, "v1": v1}
